@@ -85,7 +85,10 @@
             result->rc = inverse(EEAV_IPADDR_INVALID); \
             return result; \
         } \
-        result->is_ipv4 = true; \
+        if (strchr (brs + 1, ':') != NULL) /* untagged ipv6 */ \
+            result->is_ipv6 = true; \
+        else \
+            result->is_ipv4 = true; \
     } \
     else { /* try ipv6 */ \
         /* RFC 5321, 4.1.3: the only tag is "IPv6:" */ \
